@@ -537,7 +537,9 @@ class POP3SubprocessInterface:
             while True:
                 if self.reader is None or self.reader.at_eof():
                     break
-                msg = await self.reader.readuntil(b"\r\n")
+                msg = await self.reader.read(65536)
+                if not msg:
+                    break
                 await self.pop3_client.push(msg)
         except (OSError, asyncio.IncompleteReadError, ConnectionResetError):
             pass
